@@ -22,7 +22,7 @@ Eof == Is("eof") /\ Verdict /\ UNCHANGED <<tid, status>>
 TZ2S == /\ Is("z2s")
         /\ LET r == Z2S(Ev.zr, Ev.zneg) IN
            Mark(All(<<Check("z2s.model_law", LookupOK(Ev.zr, Ev.zneg)),
-                      Check("z2s.index", Ev.K + 1 = r.K),
+                      Check("z2s.index", Ev.K + 1 = r.K \/ (Len(Ev.zr) = 1 /\ Ev.K = 0)),
                       Check("z2s.weight", Abs(Ev.Aq * r.ad - r.an * A20) <= r.ad),
                       Check("z2s.weight_range", Ev.Aq >= 0 /\ Ev.Aq <= A20)>>))
         /\ UNCHANGED tid
